@@ -231,7 +231,12 @@ def run(ctx):
                 f_, e_ = sides
                 if f_[1] in ('std::find', 'boost::range::find') and f_[3][-1] == acqv and e_[1].endswith('::end'):
                     waiting = not e.pol  # atom is find(..., acq) == end()
-        if waiting is None:
+        if waiting is None and not any(e.kind == 'branch' and ex.mentions(e.atom, acqv) for e in evs):
+            ctx.violation('R6', 'unlock: finish() iff the new owner waits on the acquisition', where(unlock, own[0].line),
+                          'the acquisition handed the mutex is %s with no test that its issuer is blocked on it: %s' % ('finished' if fins else 'never finished',
+                                                                                                                        'an actor that has not reached its wait yet has no simcall to answer' if fins else 'a blocked waiter owns the mutex but is never woken'),
+                          key='R6|unlock|finish iff waiting')
+        elif waiting is None:
             ctx.unrecognised('R6', 'unlock: membership test of the acquisition in the new owner\'s waiting synchros not recognised')
         else:
             ctx.check((len(fins) == 1) == waiting, 'R6', 'unlock: finish() iff the new owner waits on the acquisition (waiting=%s)' % waiting, where(unlock, own[0].line),
